@@ -499,11 +499,24 @@ func c17Stream(o *out, r *rng, thorough bool) {
 				exps = append(exps, exp{im: im, start: start, count: count})
 			}
 		}
-		// finally a range crossing the end of the last image: correct prefix, then disconnect
-		last := chosen[len(chosen)-1]
-		lastSector := (last.n.size - 24) / last.secLen
-		reqs = append(reqs, creq{op: opReadCD2048, a: uint64(lastSector - 1), b: 3})
-		exps = append(exps, exp{im: last, start: lastSector - 1, count: 3})
+		// a start sector far beyond the end whose byte offset is a multiple of 2^32 (2^32/gcd(S,2^32), and
+		// neighbours): nothing may be delivered - 64-bit offset arithmetic must not wrap into the file
+		if rep%2 == 1 {
+			lastIm := chosen[len(chosen)-1]
+			wrap := int64(1) << 32
+			for g := lastIm.secLen; g%2 == 0; g /= 2 {
+				wrap /= 2
+			}
+			st := wrap + int64(r.pick(0, 0, 1, 16))
+			reqs = append(reqs, creq{op: opReadCD2048, a: uint64(st), b: 1})
+			exps = append(exps, exp{im: lastIm, start: st, count: 1})
+		} else {
+			// finally a range crossing the end of the last image: correct prefix, then disconnect
+			last := chosen[len(chosen)-1]
+			lastSector := (last.n.size - 24) / last.secLen
+			reqs = append(reqs, creq{op: opReadCD2048, a: uint64(lastSector - 1), b: 3})
+			exps = append(exps, exp{im: last, start: lastSector - 1, count: 3})
+		}
 		key := fmt.Sprintf("%d:%s", rep, encodeReqs(reqs))
 		runWithOracle(o, t, false, reqs, key, func(root string, nodes []tnode) string {
 			var sb strings.Builder
